@@ -12,14 +12,26 @@ namespace vf {
 static const float kRateTab[] = {1.f, 2.f, 4.f, 10.f, 25.f, 30.f, 50.f, 60.f, 100.f, 120.f, 125.f, 200.f, 250.f, 500.f, 1000.f, 12.5f, 62.5f, 0.5f, 1.5f, 2000.f};
 const int kNumRates = sizeof(kRateTab) / sizeof(kRateTab[0]);
 float rateOf(long long r) { if (r < 0) r = -r; return kRateTab[r % kNumRates]; }
+static std::string lowerOf(std::string s) { for (auto &c : s) if (c >= 'A' && c <= 'Z') c = static_cast<char>(c - 'A' + 'a'); return s; }
 std::string groupNameOf(long long g) {
     if (g < 0) g = -g;
     if (g == 0) return "POINT";
     if (g == 1) return "ANALOG";
     if (g == 2) return "FORCE_PLATFORM";
+    if (g >= 700000 && g < 800000) return lowerOf(groupNameOf(g - 700000));     // same name in another letter case (a different name for every look-up)
     return poolName(1000 + g, 20);
 }
-std::string paramNameOf(long long n) { return poolName(2000 + (n < 0 ? -n : n), 20); }
+std::string paramNameOf(long long n) {
+    if (n < 0) n = -n;
+    if (n >= 700000 && n < 800000) return lowerOf(paramNameOf(n - 700000));      // case variant of an ordinary name
+    if (n >= 800000 && n < 900000) {                                              // longer than the 127 characters a file can hold (accepted in memory, refused by write)
+        std::string b = paramNameOf(n - 800000); static const size_t lens[] = {128, 130, 200, 300};
+        const size_t want = lens[static_cast<size_t>(n) % 4]; size_t k = 0;
+        while (b.size() < want) b.push_back(static_cast<char>('A' + (k++ * 7 + static_cast<size_t>(n)) % 26));
+        return b;
+    }
+    return poolName(2000 + n, 20);
+}
 std::string pointNameOf(long long n) { return poolName(3000 + (n < 0 ? -n : n), 20); }
 std::string channelNameOf(long long n) { return poolName(4000 + (n < 0 ? -n : n), 20); }
 
@@ -92,6 +104,19 @@ Shape shapeOf(const ezc3d::c3d &c) {
     return s;
 }
 
+// names are stored upper-case in a file: two groups, or two parameters of one group, whose names differ only by letter case cannot both be saved
+bool uniqueModuloCase(const ezc3d::c3d &c) {
+    std::set<std::string> gs;
+    for (size_t g = 0; g < c.parameters().nbGroups(); ++g) {
+        const auto &G = c.parameters().group(g);
+        if (G.name().empty() && G.nbParameters() == 0) continue;
+        if (!gs.insert(upper(G.name())).second) return false;
+        std::set<std::string> ps;
+        for (size_t p = 0; p < G.nbParameters(); ++p) if (!ps.insert(upper(G.parameter(p).name())).second) return false;
+    }
+    return true;
+}
+
 // ---- parameter spec --------------------------------------------------------------------------------
 // param <g> <n> <type> <lock> <desclen> <vseed> <delta> <nd> <d1..dnd>
 ParamSpec paramSpecOf(const Op &op) {
@@ -104,7 +129,7 @@ ParamSpec paramSpecOf(const Op &op) {
     s.type = static_cast<int>(t % 4);            // 3 => untyped (no set call)
     s.untyped = s.type == 3;
     s.lock = op.arg(3) % 2 != 0;
-    long long dl = op.arg(4); if (dl < 0) dl = -dl; if (dl > 255) dl = 255;
+    long long dl = op.arg(4); if (dl < 0) dl = -dl; if (dl > 400) dl = 400;      // beyond 255: accepted in memory, refused by write
     Rng r(static_cast<uint64_t>(op.arg(5)));
     s.desc = genText(r, static_cast<size_t>(dl));
     long long delta = op.arg(6);
@@ -619,6 +644,7 @@ Outcome Interp::exec(const Op &op) {
             try { obj->print(); } catch (...) { std::cout.rdbuf(old); throw; }
             std::cout.rdbuf(old);
         }
+        else if ((k == "save" || k == "reload") && !uniqueModuloCase(*obj)) { out.skipped = true; out.note = "names that differ only by letter case collide in a file (names are stored upper-case): not saved"; }
         else if (k == "save") { lastSavePath = path("out_" + std::to_string(saves++) + ".c3d"); obj->write(lastSavePath); }
         else if (k == "reload") {
             lastSavePath = path("out_" + std::to_string(saves++) + ".c3d");
